@@ -263,7 +263,7 @@ func (c *Channel) Invoke(ctx context.Context, method string, req, resp interface
 			_ = writeMessage(ctx, nil, ch, frame{trailers: t})
 		}
 		if err != nil {
-			_ = writeMessage(ctx, nil, ch, frame{err: err})
+			_ = writeMessage(ctx, nil, ch, frame{err: internal.HandlerErrorToStatus(err)})
 		}
 	}()
 
@@ -530,7 +530,7 @@ func (s *inProcessServerStream) finish(err error) {
 	s.trailers = nil
 
 	if err != nil {
-		_ = writeMessage(s.ctx, nil, s.responses, frame{err: err})
+		_ = writeMessage(s.ctx, nil, s.responses, frame{err: internal.HandlerErrorToStatus(err)})
 	}
 }
 
